@@ -161,40 +161,52 @@ Section Inv.
           -- rewrite aget_aset_other in G by exact E. right. apply MM. eauto.
   Qed.
 
-  Definition ainv (st : astate) : Prop := origin (table st) /\ mm_ok (table st) (mm st).
+  Definition ainv (st : astate) : Prop :=
+    origin (cache st) /\ origin (table st) /\ mm_ok (table st) (mm st) /\ nodupkeys (cache st).
 
-  Lemma a_block_inv : forall st b st', Forall tx_wf b -> ainv st -> a_block st b = Ok st' -> ainv st'.
+  Lemma ainv_winv : forall st, ainv st -> winv (mkW (cache st) (table st) (mm st) (shadowed st)).
+  Proof. intros st I. exact I. Qed.
+
+  Lemma origin_nil : origin [].
+  Proof. intros t i e G. discriminate. Qed.
+
+  Lemma a_block_inv : forall cm st b st', Forall tx_wf b -> ainv st -> a_block cm st b = Ok st' -> ainv st'.
   Proof.
-    intros st b st' F [OT MM] H. unfold a_block in H. destruct b as [|cb rest].
-    - inversion H; subst. split; assumption.
+    intros cm st b st' F I H. unfold a_block in H. destruct b as [|cb rest].
+    - destruct cm; [|inversion H; subst; exact I].
+      destruct I as [OC [OT [MM ND]]].
+      destruct (flush (cache st) (table st) (mm st)) as [tb m] eqn:FL. inversion H; subst; clear H.
+      destruct (flush_inv _ _ _ _ _ ND OC OT MM FL) as [A B].
+      split; [exact origin_nil|]. split; [exact A|]. split; [exact B|constructor].
     - inversion F as [|x l F1 F2]; subst.
       apply bind_ok in H. destruct H as [w1 [H1 H]].
       apply bind_ok in H. destruct H as [w2 [H2 H]].
-      destruct (flush (w_cache w2) (w_table w2) (w_mm w2)) as [tb m] eqn:FL.
-      inversion H; subst; clear H.
-      assert (I0 : winv (mkW [] (table st) (mm st) (shadowed st))).
-      { repeat split; cbn [w_cache w_table w_mm]; try assumption; try apply MM.
-        - intros t i e G. discriminate.
-        - constructor. }
-      pose proof (a_txs_inv _ _ _ F2 I0 H1) as I1.
+      pose proof (a_txs_inv _ _ _ F2 (ainv_winv st I) H1) as I1.
       pose proof (a_tx_inv _ _ _ _ F1 I1 H2) as [OC2 [OT2 [MM2 ND2]]].
-      destruct (flush_inv _ _ _ _ _ ND2 OC2 OT2 MM2 FL) as [A B]. split; assumption.
+      destruct cm.
+      + destruct (flush (w_cache w2) (w_table w2) (w_mm w2)) as [tb m] eqn:FL. inversion H; subst; clear H.
+        destruct (flush_inv _ _ _ _ _ ND2 OC2 OT2 MM2 FL) as [A B].
+        split; [exact origin_nil|]. split; [exact A|]. split; [exact B|constructor].
+      + inversion H; subst; clear H. repeat split; assumption || apply MM2.
   Qed.
 
-  Lemma a_run_from_inv : forall c st st', chain_wf c -> ainv st -> a_run_from st c = Ok st' -> ainv st'.
+  Lemma a_run_from_inv : forall c sched st st', chain_wf c -> ainv st -> a_run_from sched st c = Ok st' -> ainv st'.
   Proof.
-    induction c as [|b c IH]; intros st st' F I H; cbn [a_run_from] in H.
+    induction c as [|b c IH]; intros sched st st' F I H; cbn [a_run_from] in H.
     - inversion H; subst. exact I.
     - inversion F as [|x l F1 F2]; subst.
-      apply bind_ok in H. destruct H as [st1 [H1 H]].
-      eapply IH; [exact F2| |exact H]. eapply a_block_inv; eassumption.
+      destruct sched as [|cm sched]; apply bind_ok in H; destruct H as [st1 [H1 H]];
+        (eapply IH; [exact F2| |exact H]); eapply a_block_inv; eassumption.
   Qed.
 
   Lemma ainv_init : ainv a_init.
-  Proof. split; [intros t i e G; discriminate|]. intros s o. cbn. split; [tauto|]. intros [v G]. discriminate. Qed.
+  Proof.
+    split; [exact origin_nil|]. split; [exact origin_nil|]. split; [|constructor].
+    intros s o. cbn. split; [tauto|]. intros [v G]. discriminate.
+  Qed.
 
-  Theorem address_invariant : forall c st, chain_wf c -> a_run c = Ok st -> ainv st.
-  Proof. intros c st F H. exact (a_run_from_inv c a_init st F ainv_init H). Qed.
+  Theorem address_invariant : forall sched c st, chain_wf c -> a_run sched c = Ok st -> ainv st.
+  Proof. intros sched c st F H. exact (a_run_from_inv c sched a_init st F ainv_init H). Qed.
 
   (* ---------------------------------------------------------------- the panic site is unreachable *)
 
@@ -229,27 +241,25 @@ Section Inv.
     - exact (IH w1 F2 (a_tx_inv _ _ _ _ F1 I H1) H).
   Qed.
 
-  Lemma a_block_no_panic5 : forall st b, Forall tx_wf b -> ainv st -> a_block st b <> Panic 5.
+  Lemma a_block_no_panic5 : forall cm st b, Forall tx_wf b -> ainv st -> a_block cm st b <> Panic 5.
   Proof.
-    intros st b F [OT MM] H. unfold a_block in H. destruct b as [|cb rest]; [discriminate|].
-    inversion F as [|x l F1 F2]; subst.
-    assert (I0 : winv (mkW [] (table st) (mm st) (shadowed st))).
-    { repeat split; cbn [w_cache w_table w_mm]; try assumption; try apply MM.
-      - intros t i e G. discriminate.
-      - constructor. }
-    apply bind_panic in H. destruct H as [H|[w1 [H1 H]]]; [exact (a_txs_no_panic5 _ _ F2 I0 H)|].
-    pose proof (a_txs_inv _ _ _ F2 I0 H1) as I1.
-    apply bind_panic in H. destruct H as [H|[w2 [H2 H]]]; [exact (a_tx_no_panic5 _ _ _ I1 H)|].
-    destruct (flush (w_cache w2) (w_table w2) (w_mm w2)). discriminate.
+    intros cm st b F I H. unfold a_block in H. destruct b as [|cb rest].
+    - destruct cm; [destruct (flush (cache st) (table st) (mm st))|]; discriminate.
+    - inversion F as [|x l F1 F2]; subst.
+      apply bind_panic in H. destruct H as [H|[w1 [H1 H]]]; [exact (a_txs_no_panic5 _ _ F2 (ainv_winv st I) H)|].
+      pose proof (a_txs_inv _ _ _ F2 (ainv_winv st I) H1) as I1.
+      apply bind_panic in H. destruct H as [H|[w2 [H2 H]]]; [exact (a_tx_no_panic5 _ _ _ I1 H)|].
+      destruct cm; [destruct (flush (w_cache w2) (w_table w2) (w_mm w2))|]; discriminate.
   Qed.
 
-  Theorem no_missing_pair_panic : forall c, chain_wf c -> a_run c <> Panic 5.
+  Theorem no_missing_pair_panic : forall sched c, chain_wf c -> a_run sched c <> Panic 5.
   Proof.
-    intros c. unfold a_run. generalize ainv_init. generalize a_init.
-    induction c as [|b c IH]; intros st I F; cbn [a_run_from]; [discriminate|].
-    inversion F as [|x l F1 F2]; subst. intros H. apply bind_panic in H. destruct H as [H|[st1 [H1 H]]].
-    - exact (a_block_no_panic5 _ _ F1 I H).
-    - exact (IH st1 (a_block_inv _ _ _ F1 I H1) F2 H).
+    intros sched c. unfold a_run. generalize ainv_init. generalize a_init. revert sched.
+    induction c as [|b c IH]; intros sched st I F; cbn [a_run_from]; [discriminate|].
+    inversion F as [|x l F1 F2]; subst.
+    destruct sched as [|cm sched]; intros H; apply bind_panic in H; destruct H as [H|[st1 [H1 H]]];
+      try (exact (a_block_no_panic5 _ _ _ F1 I H));
+      exact (IH _ st1 (a_block_inv _ _ _ _ F1 I H1) F2 H).
   Qed.
 End Inv.
 
@@ -385,58 +395,89 @@ Proof.
   - destruct (aget op_eqb o c); [reflexivity|]. apply aget_aset_other. exact E.
 Qed.
 
-Lemma a_block_sim : forall st b st' u,
-  (forall o, aget op_eqb o (table st) = aget op_eqb o u) ->
-  a_block st b = Ok st' -> shadowed st' = false ->
-  (forall o, aget op_eqb o (table st') = aget op_eqb o (u_block u b)) /\ shadowed st = false.
+Definition aview (st : astate) (o : outpoint) : option aentry :=
+  match aget op_eqb o (cache st) with Some e => Some e | None => aget op_eqb o (table st) end.
+
+Lemma a_block_sim : forall cm st b st' u,
+  nodupkeys (cache st) -> (forall o, aget op_eqb o u = aview st o) ->
+  a_block cm st b = Ok st' -> shadowed st' = false ->
+  nodupkeys (cache st') /\ (forall o, aget op_eqb o (u_block u b) = aview st' o) /\ shadowed st = false.
 Proof.
-  intros st b st' u E H F. unfold a_block in H. destruct b as [|cb rest].
-  - inversion H; subst. split; assumption.
+  intros cm st b st' u ND E H F. unfold a_block in H. destruct b as [|cb rest].
+  - destruct cm; [|inversion H; subst; repeat split; assumption].
+    destruct (flush (cache st) (table st) (mm st)) as [tb m] eqn:FL. inversion H; subst; clear H.
+    cbn [shadowed] in F. split; [constructor|]. split; [|exact F].
+    intros o. unfold aview. cbn [cache table aget u_block].
+    pose proof (flush_get (cache st) (table st) (mm st) o ND) as G. rewrite FL in G. cbn [fst] in G.
+    rewrite G. apply E.
   - apply bind_ok in H. destruct H as [w1 [H1 H]].
     apply bind_ok in H. destruct H as [w2 [H2 H]].
-    destruct (flush (w_cache w2) (w_table w2) (w_mm w2)) as [tb m] eqn:FL.
-    inversion H; subst; clear H. cbn [shadowed table] in *.
-    assert (S0 : sim (mkW [] (table st) (mm st) (shadowed st)) u).
-    { intros o. unfold merged. cbn [w_cache w_table aget]. symmetry. apply E. }
-    assert (F1 : w_shadow w1 = false).
-    { destruct (w_shadow w1) eqn:X; [|reflexivity]. rewrite (shadow_mono_tx _ _ _ _ H2 X) in F. discriminate. }
-    destruct (a_txs_sim _ _ _ _ S0 H1 F1) as [S1 F0]. cbn [w_shadow] in F0.
-    destruct (a_tx_sim _ _ _ _ _ S1 H2 F) as [S2 _].
-    split; [|exact F0]. intros o. unfold u_block.
+    assert (S0 : sim (mkW (cache st) (table st) (mm st) (shadowed st)) u) by exact E.
     assert (ND2 : nodupkeys (w_cache w2)).
-    { eapply a_tx_nodup; [|exact H2]. eapply a_txs_nodup; [|exact H1]. cbn [w_cache]. constructor. }
-    pose proof (flush_get (w_cache w2) (w_table w2) (w_mm w2) o ND2) as G. rewrite FL in G. cbn [fst] in G.
-    rewrite G. symmetry. apply S2.
+    { eapply a_tx_nodup; [|exact H2]. eapply a_txs_nodup; [|exact H1]. exact ND. }
+    assert (F2 : w_shadow w2 = false).
+    { destruct cm; [destruct (flush (w_cache w2) (w_table w2) (w_mm w2))|]; inversion H; subst; exact F. }
+    assert (F1 : w_shadow w1 = false).
+    { destruct (w_shadow w1) eqn:X; [|reflexivity]. rewrite (shadow_mono_tx _ _ _ _ H2 X) in F2. discriminate. }
+    destruct (a_txs_sim _ _ _ _ S0 H1 F1) as [S1 F0]. cbn [w_shadow] in F0.
+    destruct (a_tx_sim _ _ _ _ _ S1 H2 F2) as [S2 _].
+    destruct cm.
+    + destruct (flush (w_cache w2) (w_table w2) (w_mm w2)) as [tb m] eqn:FL. inversion H; subst; clear H.
+      split; [constructor|]. split; [|exact F0]. intros o. unfold aview, u_block. cbn [cache table aget].
+      pose proof (flush_get (w_cache w2) (w_table w2) (w_mm w2) o ND2) as G. rewrite FL in G. cbn [fst] in G.
+      rewrite G. apply S2.
+    + inversion H; subst; clear H. split; [exact ND2|]. split; [|exact F0]. intros o. apply S2.
 Qed.
 
-Lemma a_run_from_sim : forall c st st' u,
-  (forall o, aget op_eqb o (table st) = aget op_eqb o u) ->
-  a_run_from st c = Ok st' -> shadowed st' = false ->
-  forall o, aget op_eqb o (table st') = aget op_eqb o (fold_left u_block c u).
+Lemma shadow_mono_block : forall cm st b st', a_block cm st b = Ok st' -> shadowed st = true -> shadowed st' = true.
 Proof.
-  induction c as [|b c IH]; intros st st' u E H F; cbn [a_run_from] in H; cbn [fold_left].
-  - inversion H; subst. exact E.
-  - apply bind_ok in H. destruct H as [st1 [H1 H]].
-    assert (F1 : shadowed st1 = false).
-    { destruct (shadowed st1) eqn:X; [|reflexivity]. exfalso.
-      assert (M : forall c s0 s1, a_run_from s0 c = Ok s1 -> shadowed s0 = true -> shadowed s1 = true).
-      { clear. induction c as [|b c IH]; intros s0 s1 H T; cbn [a_run_from] in H.
-        - inversion H; subst. exact T.
-        - apply bind_ok in H. destruct H as [s2 [H1 H]]. apply (IH _ _ H).
-          unfold a_block in H1. destruct b as [|cb rest]; [inversion H1; subst; exact T|].
-          apply bind_ok in H1. destruct H1 as [w1 [G1 H1]]. apply bind_ok in H1. destruct H1 as [w2 [G2 H1]].
-          destruct (flush (w_cache w2) (w_table w2) (w_mm w2)). inversion H1; subst. cbn [shadowed].
-          apply (shadow_mono_tx _ _ _ _ G2). apply (shadow_mono_txs _ _ _ G1). exact T. }
-      rewrite (M _ _ _ H X) in F. discriminate. }
-    destruct (a_block_sim _ _ _ _ E H1 F1) as [E1 _].
-    exact (IH _ _ _ E1 H F).
+  intros cm st b st' H T. unfold a_block in H. destruct b as [|cb rest].
+  - destruct cm; [destruct (flush (cache st) (table st) (mm st))|]; inversion H; subst; exact T.
+  - apply bind_ok in H. destruct H as [w1 [G1 H]]. apply bind_ok in H. destruct H as [w2 [G2 H]].
+    assert (T2 : w_shadow w2 = true) by (apply (shadow_mono_tx _ _ _ _ G2); apply (shadow_mono_txs _ _ _ G1); exact T).
+    destruct cm; [destruct (flush (w_cache w2) (w_table w2) (w_mm w2))|]; inversion H; subst; exact T2.
 Qed.
 
-(* if no spent input was shadowed, the table is, outpoint for outpoint, the set of unspent outputs *)
-Theorem table_is_utxo_set : forall c st,
-  a_run c = Ok st -> shadowed st = false ->
+Lemma shadow_mono_run : forall c sched s0 s1, a_run_from sched s0 c = Ok s1 -> shadowed s0 = true -> shadowed s1 = true.
+Proof.
+  induction c as [|b c IH]; intros sched s0 s1 H T; cbn [a_run_from] in H.
+  - inversion H; subst. exact T.
+  - destruct sched as [|cm sched]; apply bind_ok in H; destruct H as [s2 [H1 H]];
+      apply (IH _ _ _ H); exact (shadow_mono_block _ _ _ _ H1 T).
+Qed.
+
+Lemma a_run_from_sim : forall c sched st st' u,
+  nodupkeys (cache st) -> (forall o, aget op_eqb o u = aview st o) ->
+  a_run_from sched st c = Ok st' -> shadowed st' = false ->
+  forall o, aget op_eqb o (fold_left u_block c u) = aview st' o.
+Proof.
+  induction c as [|b c IH]; intros sched st st' u ND E H F; cbn [a_run_from] in H; cbn [fold_left].
+  - inversion H; subst. exact E.
+  - destruct sched as [|cm sched]; apply bind_ok in H; destruct H as [st1 [H1 H]].
+    + assert (F1 : shadowed st1 = false).
+      { destruct (shadowed st1) eqn:X; [|reflexivity]. rewrite (shadow_mono_run _ _ _ _ H X) in F. discriminate. }
+      destruct (a_block_sim _ _ _ _ _ ND E H1 F1) as [ND1 [E1 _]]. exact (IH _ _ _ _ ND1 E1 H F).
+    + assert (F1 : shadowed st1 = false).
+      { destruct (shadowed st1) eqn:X; [|reflexivity]. rewrite (shadow_mono_run _ _ _ _ H X) in F. discriminate. }
+      destruct (a_block_sim _ _ _ _ _ ND E H1 F1) as [ND1 [E1 _]]. exact (IH _ _ _ _ ND1 E1 H F).
+Qed.
+
+(* whatever the commit schedule: if no spent input was shadowed, cache-over-table is, outpoint for
+   outpoint, the set of unspent outputs; right after a commit (empty cache) that is the table *)
+Theorem view_is_utxo_set : forall sched c st,
+  a_run sched c = Ok st -> shadowed st = false ->
+  forall o, aview st o = aget op_eqb o (u_run c).
+Proof.
+  intros sched c st H F o. symmetry.
+  apply (a_run_from_sim c sched a_init st []); [constructor|reflexivity|exact H|exact F].
+Qed.
+
+Corollary table_is_utxo_set : forall sched c st,
+  a_run sched c = Ok st -> shadowed st = false -> cache st = [] ->
   forall o, aget op_eqb o (table st) = aget op_eqb o (u_run c).
-Proof. intros c st H F. apply (a_run_from_sim c a_init st []); [reflexivity|exact H|exact F]. Qed.
+Proof.
+  intros sched c st H F C o. rewrite <- (view_is_utxo_set sched c st H F o). unfold aview. rewrite C. reflexivity.
+Qed.
 
 Lemma listed_In : forall st s o, In o (listed st s) <-> In (s, o) (mm st).
 Proof.
@@ -444,4 +485,21 @@ Proof.
   - intros [[s2 o2] [E I]]. cbn [snd] in E. subst. apply filter_In in I. destruct I as [I K].
     cbn [fst] in K. apply N.eqb_eq in K. subst. exact I.
   - intros I. exists (s, o). split; [reflexivity|]. apply filter_In. split; [exact I|]. cbn [fst]. apply N.eqb_refl.
+Qed.
+
+Lemma a_block_committed : forall st b st', a_block true st b = Ok st' -> cache st' = [].
+Proof.
+  intros st b st' H. unfold a_block in H. destruct b as [|cb rest].
+  - destruct (flush (cache st) (table st) (mm st)). inversion H; subst. reflexivity.
+  - apply bind_ok in H. destruct H as [w1 [H1 H]]. apply bind_ok in H. destruct H as [w2 [H2 H]].
+    destruct (flush (w_cache w2) (w_table w2) (w_mm w2)). inversion H; subst. reflexivity.
+Qed.
+
+(* with a commit after every block the cache is empty after every block *)
+Lemma a_run_committed : forall c st, a_run [] c = Ok st -> cache st = [].
+Proof.
+  intros c st. unfold a_run. assert (I : cache a_init = []) by reflexivity. revert I. generalize a_init.
+  induction c as [|b c IH]; intros s0 I H; cbn [a_run_from] in H.
+  - inversion H; subst. exact I.
+  - apply bind_ok in H. destruct H as [s1 [H1 H]]. apply (IH s1); [|exact H]. exact (a_block_committed _ _ _ H1).
 Qed.
